@@ -20,7 +20,11 @@ VERIF = os.path.dirname(os.path.dirname(os.path.abspath(__file__)))
 REPO = os.environ.get("VERIF_REPO", "/repo")
 LEAN = os.path.join(VERIF, "lean")
 BUILD = os.path.join(VERIF, "build")
-EVID = os.path.join(VERIF, "evidence")
+REPLAY_DIR = "replay_scratch" if os.environ.get("VERIF_REPO") not in (None, "", "/repo") else "replay"
+# a run against a scratch copy of the sources (VERIF_REPO set: evaluation of a seeded change) must not overwrite the
+# evidence and replays of /repo itself
+SCRATCH = os.environ.get("VERIF_REPO") not in (None, "", "/repo")
+EVID = os.path.join(VERIF, "build", "scratch_evidence") if SCRATCH else os.path.join(VERIF, "evidence")
 GUARD = "RTRLIB_VERIF"
 ALLOWED_AXIOMS = {"propext", "Classical.choice", "Quot.sound"}
 
@@ -227,7 +231,8 @@ def build_harness(name, front_ends, exclude=(), flags=None, link=None, cc="gcc",
         if f.endswith(".h") or f.endswith(".inc"):
             hh.update(open(os.path.join(VERIF, "harness", f), "rb").read())
     key = repo_tree_hash(" ".join(flags + link + list(exclude) + [cc, variant]) + hh.hexdigest())
-    outdir = os.path.join(BUILD, "h_%s_%s" % (name, key))
+    hp = "hs" if SCRATCH else "h"          # builds from a scratch copy of the sources never evict those of /repo
+    outdir = os.path.join(BUILD, "%s_%s_%s" % (hp, name, key))
     exe = os.path.join(outdir, name)
     if os.path.exists(exe):
         return exe, "cached"
@@ -236,7 +241,7 @@ def build_harness(name, front_ends, exclude=(), flags=None, link=None, cc="gcc",
             return exe, "cached"
         # drop stale builds of the same harness
         for d in os.listdir(BUILD):
-            if d.startswith("h_%s_" % name) and d != os.path.basename(outdir):
+            if d.startswith("%s_%s_" % (hp, name)) and d != os.path.basename(outdir):
                 shutil.rmtree(os.path.join(BUILD, d), ignore_errors=True)
         os.makedirs(outdir, exist_ok=True)
         gen = _gen_include_dir()
@@ -356,10 +361,11 @@ class Report:
         self.cov = {"samples": []}
         self.assumptions = []
         self.obligations = {}     # theorem -> ok
-        os.makedirs(os.path.join(BUILD, "replay"), exist_ok=True)
+        os.makedirs(os.path.join(BUILD, REPLAY_DIR), exist_ok=True)
+        os.makedirs(EVID, exist_ok=True)
 
     def replay_path(self, tag):
-        return os.path.join(BUILD, "replay", "%s_%s_%d.txt" % (self.pid, tag, seed()))
+        return os.path.join(BUILD, REPLAY_DIR, "%s_%s_%d.txt" % (self.pid, tag, seed()))
 
     def violation(self, tag, text, no_input=False, signature=None):
         """record a violation; `signature` is matched against known_findings.json"""
